@@ -461,10 +461,16 @@ def run(pid, tier, seed, replay=None):
         os.makedirs(sc.path("sim"), exist_ok=True)
         jobs = []
         for nm, clear, own in (("MC_cc", True, "both"), ("NEG_cc", False, "both"), ("NEG2_cc", True, "none"), ("NEG3_cc", True, "kvar")):
-            mod, cfg = mc_text(nm, clear, "mc" if thorough else "mcquick", own=own)
+            # exhaustive on the small constants (the full constants have > 3e7 distinct states: not exhaustible here)
+            mod, cfg = mc_text(nm, clear, "mcquick", own=own)
             sc.write(nm + ".tla", mod)
             jobs.append((nm, sc, nm, cfg + "INIT Init\nNEXT Next\nVIEW View\nINVARIANT Coherent\nINVARIANT MatrixCurrent\n",
                          dict(workers=4, timeout=1800)))
+        if thorough:    # full constants, every behaviour of up to 4 operations (bounded exhaustively) in addition to the simulations
+            mod, cfg = mc_text("MCD_cc", True, "mc")
+            sc.write("MCD_cc.tla", mod)
+            jobs.append(("MCD_cc", sc, "MCD_cc", cfg + "INIT Init\nNEXT Next\nVIEW View\nCONSTRAINT DepthBound\nINVARIANT Coherent\nINVARIANT MatrixCurrent\n",
+                         dict(workers=8, timeout=3000)))
         mod, cfg = mc_text("G_cc", True, "gen")
         sc.write("G_cc.tla", mod)
         jobs.append(("G_cc", sc, "G_cc", cfg + "INIT GenInit\nNEXT Next\nCONSTRAINT DepthBound\n",
@@ -480,8 +486,11 @@ def run(pid, tier, seed, replay=None):
             raise tlc.MachineryError("vacuity: CondCache does not detect stale reuse when a repaired defect is switched back on")
         rep.extra["non_vacuity"] = ("with ClearOnSetCondition = FALSE TLC reports %s %s; with ReuseToken = none: %s %s; with ReuseToken = kvar: %s %s"
                                     % (res["NEG_cc"].error + res["NEG2_cc"].error + res["NEG3_cc"].error))
-        for nm in ("MC_cc", "G_cc", "S_cc"):
+        for nm in ("MC_cc", "G_cc", "S_cc") + (("MCD_cc",) if thorough else ()):
             rep.add_tlc("CondCache." + nm, res[nm])
+            if nm == "MCD_cc" and res[nm].error:
+                rep.violation("design:%s" % res[nm].error[1], "the code-shaped cache model violates %s (full constants, bounded depth)" % res[nm].error[1],
+                              {"trace": tlc.error_trace(res[nm])})
         if res["MC_cc"].error:
             rep.violation("design:%s" % res["MC_cc"].error[1], "the code-shaped cache model violates %s" % res["MC_cc"].error[1],
                           {"trace": tlc.error_trace(res["MC_cc"])})
